@@ -1,9 +1,179 @@
-/- Driver.OpsCli — placeholder (replaced by the real op table) -/
+/-
+  Driver.OpsCli — driver operations of the CLI model (JdModel/Cli.lean).
+
+    cliflags <binary>
+        → name:Type:default,…                         the modelled flag declarations
+    cliplan  <binary> <kv…>
+        → none | mode=<diff|gitdiff|patch|translate> lib=<v1|v2> o=<opts> color=<0|1> src=<a<i>|stdin>,…
+                                                       the library calls `main` makes for these flags
+    cli      <binary> <kv…>
+        → exit=<n> stdout=x<hex> outfile=<none|x<hex>> stderr=<none|oneLine|multiLine|usage> msg=x<hex>
+
+  <binary>: v2jd | top | topV1.   <kv…>: key=value tokens in any order, absent = default.
+    flags    color git mset p set version yaml v2 = 0|1    f o setkeys t = x<hex>    port = int
+             prec = <16 hex float64 bits>    nargs = nat
+    results  sv f1 f2 p1 p2 rd pt wr = ok | E:x<hex>        (unit results: ok or error message)
+             rp rm tr = ok:x<hex> | E:x<hex>                (text results)
+             rj pd = x<hex>   dl = nat
+-/
 import Driver.Wire
+import JdModel.Cli
+
+namespace Jd.Driver.CliOps
+open Jd Jd.Wire Jd.Cli
+
+abbrev KV := List (String × String)
+
+def kvOfTokens (ts : List String) : Option KV :=
+  ts.mapM (fun t =>
+    match t.splitOn "=" with
+    | [k, v] => some (k, v)
+    | _ => none)
+
+def pKV : P KV := do
+  let ts ← get
+  set ([] : List String)
+  match kvOfTokens ts with
+  | some kv => pure kv
+  | none => failure
+
+def kvBool (kv : KV) (k : String) (d : Bool) : Option Bool :=
+  match kv.lookup k with
+  | none => some d
+  | some "1" => some true
+  | some "0" => some false
+  | some _ => none
+
+def decText (v : String) : Option String :=
+  if v.startsWith "x" then stringOfHex (sdrop v 1) else none
+
+def kvText (kv : KV) (k : String) (d : String) : Option String :=
+  match kv.lookup k with
+  | none => some d
+  | some v => decText v
+
+def kvNat (kv : KV) (k : String) (d : Nat) : Option Nat :=
+  match kv.lookup k with
+  | none => some d
+  | some v => v.toNat?
+
+def kvInt (kv : KV) (k : String) (d : Int) : Option Int :=
+  match kv.lookup k with
+  | none => some d
+  | some v => v.toInt?
+
+def kvUnitRes (kv : KV) (k : String) : Option (Except String Unit) :=
+  match kv.lookup k with
+  | none => some uncomputed
+  | some "ok" => some (.ok ())
+  | some v => if v.startsWith "E:" then (decText (sdrop v 2)).map .error else none
+
+def kvTextRes (kv : KV) (k : String) : Option (Except String String) :=
+  match kv.lookup k with
+  | none => some uncomputed
+  | some v =>
+    if v.startsWith "ok:" then (decText (sdrop v 3)).map .ok
+    else if v.startsWith "E:" then (decText (sdrop v 2)).map .error
+    else none
+
+def flagsOfKV (kv : KV) : Option Flags := do
+  let d : Flags := {}
+  let color ← kvBool kv "color" d.color
+  let f ← kvText kv "f" d.f
+  let git ← kvBool kv "git" d.gitDiffDriver
+  let mset ← kvBool kv "mset" d.mset
+  let o ← kvText kv "o" d.o
+  let p ← kvBool kv "p" d.p
+  let port ← kvInt kv "port" d.port
+  let prec ← match kv.lookup "prec" with
+    | none => some d.precision
+    | some v => parseHex64 v
+  let set ← kvBool kv "set" d.set
+  let setkeys ← kvText kv "setkeys" d.setkeys
+  let t ← kvText kv "t" d.t
+  let version ← kvBool kv "version" d.version
+  let yaml ← kvBool kv "yaml" d.yaml
+  let v2 ← kvBool kv "v2" d.v2
+  let nargs ← kvNat kv "nargs" d.nargs
+  pure { color, f, gitDiffDriver := git, mset, o, p, port, precision := prec, set, setkeys, t, version, yaml, v2, nargs }
+
+def resultsOfKV (kv : KV) : Option LibResults := do
+  let serve ← kvUnitRes kv "sv"
+  let file1 ← kvUnitRes kv "f1"
+  let file2 ← kvUnitRes kv "f2"
+  let parse1 ← kvUnitRes kv "p1"
+  let parse2 ← kvUnitRes kv "p2"
+  let diffLen ← kvNat kv "dl" 0
+  let renderJd ← kvText kv "rj" ""
+  let renderPatch ← kvTextRes kv "rp"
+  let renderMerge ← kvTextRes kv "rm"
+  let readDiff ← kvUnitRes kv "rd"
+  let patch ← kvUnitRes kv "pt"
+  let patched ← kvText kv "pd" ""
+  let translate ← kvTextRes kv "tr"
+  let write ← kvUnitRes kv "wr"
+  pure { serve, file1, file2, parse1, parse2, diffLen, renderJd, renderPatch, renderMerge, readDiff, patch, patched, translate, write }
+
+def pBinary : P Binary := do
+  let t ← next
+  if t == "v2jd" then pure .v2jd
+  else if t == "top" then pure .top
+  else if t == "topV1" then pure .topV1
+  else failure
+
+def encOptItem : Opt → String
+  | .merge => "M"
+  | .set => "S"
+  | .mset => "B"
+  | .color => "C"
+  | .prec e => "P" ++ hex64 e
+  | .setKeys ks => "K" ++ String.intercalate "/" (ks.map hexOfString)
+
+def encOpts (o : List Opt) : String := "o=" ++ String.intercalate "," (o.map encOptItem)
+
+def encSrc : Src → String
+  | .arg i => "a" ++ toString i
+  | .stdin => "stdin"
+
+def encPlan : Option Plan → String
+  | none => "none"
+  | some p =>
+    "mode=" ++ p.mode ++ " lib=" ++ (if p.v1 then "v1" else "v2") ++ " " ++ encOpts p.opts ++
+    " color=" ++ (if p.color then "1" else "0") ++ " src=" ++ String.intercalate "," (p.srcs.map encSrc)
+
+def encClass : StderrClass → String
+  | .none => "none"
+  | .oneLine => "oneLine"
+  | .multiLine => "multiLine"
+  | .usage => "usage"
+
+def encOutcomeCli (o : Cli.Outcome) : String :=
+  "exit=" ++ toString o.exit ++ " stdout=" ++ encText o.stdout ++
+  " outfile=" ++ (match o.outfile with | none => "none" | some s => encText s) ++
+  " stderr=" ++ encClass o.stderrClass ++ " msg=" ++ encText o.stderr
+
+end Jd.Driver.CliOps
 
 namespace Jd.Driver
-open Jd Jd.Wire
+open Jd Jd.Wire Jd.Cli Jd.Driver.CliOps
 
-def runCli (_op : String) : Option (P String) := none
+def runCli (op : String) : Option (P String) :=
+  match op with
+  | "cliflags" => some do
+    let b ← pBinary
+    pure (String.intercalate "," ((flagTable b).map (fun e => e.1 ++ ":" ++ e.2.1 ++ ":" ++ e.2.2)))
+  | "cliplan" => some do
+    let b ← pBinary
+    let kv ← pKV
+    match flagsOfKV kv with
+    | some fl => pure (encPlan (planOf b fl))
+    | none => failure
+  | "cli" => some do
+    let b ← pBinary
+    let kv ← pKV
+    match flagsOfKV kv, resultsOfKV kv with
+    | some fl, some r => pure (encOutcomeCli (cliM b fl r))
+    | _, _ => failure
+  | _ => none
 
 end Jd.Driver
